@@ -647,7 +647,7 @@ func main() {
 	for i := 0; i < run.N(36, 400); i++ {
 		runConc(genConc(run.R.Fork(uint64(2000000 + i))))
 	}
-	nSvc, nStore := run.N(140, 2500), run.N(40, 600)
+	nSvc, nStore := run.N(140, 1400), run.N(40, 300)
 	for i := 0; i < nSvc; i++ {
 		runSvc(genSvc(run.R.Fork(uint64(i)), 6+run.R.Intn(19)))
 	}
